@@ -906,6 +906,91 @@ Section BindProofs.
       apply (arguments_no_other_key ps rs ev a c); auto. apply Hnot. simpl. auto.
   Qed.
 
+  (* ---- restart of an activated flow ---- *)
+
+  Lemma cfi_named_keys_NoDup ps : forall ev args c,
+    NoDup (map fst args) -> NoDup (map fst (fst (cfi_named ps ev args c))).
+  Proof.
+    induction ps as [|p ps IH]; intros ev args c H; simpl; auto.
+    apply IH. now apply aset_keys_NoDup.
+  Qed.
+
+  Lemma cfi_pos_keys_NoDup ps : forall idx ev args,
+    NoDup (map fst args) -> NoDup (map fst (cfi_pos ps idx ev args)).
+  Proof.
+    induction ps as [|p ps IH]; intros idx ev args H; simpl; auto.
+    apply IH. destruct (aget (pos_key idx) ev); auto. now apply aset_keys_NoDup, aset_keys_NoDup.
+  Qed.
+
+  Lemma bound_arguments_NoDup ps rs ev a c : bind ps rs ev = Bound a c -> NoDup (map fst a).
+  Proof.
+    unfold Bind.bind, bind_in, create_flow_instance. intros Hb.
+    destruct (cfi_named ps ev [] []) as [args0 c0] eqn:E.
+    destruct (start_flow (cfi_pos ps 0 ev args0) ev (cfi_ret rs c0)); [|discriminate].
+    injection Hb as <- _. apply cfi_pos_keys_NoDup.
+    replace args0 with (fst (cfi_named ps ev [] [])) by now rewrite E.
+    apply cfi_named_keys_NoDup. constructor.
+  Qed.
+
+  Lemma restart_event_args_get R act a k :
+    NoDup (map fst a) -> ~ In k reserved_keys -> aget k (restart_event_args R act a) = aget k a.
+  Proof.
+    intros Hnd H. unfold restart_event_args. simpl in H.
+    rewrite aget_aset_other by tauto. rewrite aget_aupdate by auto.
+    destruct (aget k a); auto. simpl.
+    repeat match goal with
+           | |- context [String.eqb k ?s] =>
+               let E := fresh "E" in destruct (String.eqb k s) eqn:E;
+               [apply String.eqb_eq in E; subst k; exfalso; tauto|]
+           end.
+    reflexivity.
+  Qed.
+
+  (* The successor instance of a restarted activated flow binds every parameter to the value
+     the ORIGINAL call bound (positional, else named, else default), whatever the predecessor
+     assigned to its parameter variables or locals meanwhile: the restart event is built from
+     `arguments`, which no Assignment touches. *)
+  Theorem restart_rebinds_original_values : forall ps rs ev k a c R act,
+    wf_signature expr ps rs = true -> pos_contig ev k -> k <= List.length ps ->
+    bind ps rs ev = Bound a c ->
+    exists a' c', bind ps rs (restart_event_args R act a) = Bound a' c' /\
+      forall i p, nth_error ps i = Some p ->
+        aget (p_name p) c' = Some (ev_value ev i p) /\ aget (p_name p) a' = Some (ev_value ev i p).
+  Proof.
+    intros ps rs ev k a c R act Hwf Hc Hk Hb.
+    destruct (wf_sig_parts ps rs Hwf) as [Hnd [Hplain [Hres _]]].
+    destruct (bind_spec ps rs ev k Hwf Hc Hk) as [a0 [c0 [Hb0 [Hvals Hkeys]]]].
+    rewrite Hb in Hb0. injection Hb0 as <- <-.
+    assert (HndA : NoDup (map fst a)) by (eapply bound_arguments_NoDup; eauto).
+    assert (Hpos : forall j, aget (pos_key j) (restart_event_args R act a) = aget (pos_key j) ev).
+    { intros j. rewrite restart_event_args_get by (auto; apply pos_key_not_reserved).
+      destruct (Nat.lt_ge_cases j k) as [Hlt | Hge].
+      - destruct (contig_some ev k j Hc Hlt) as [v Hv]. rewrite Hv.
+        unfold Bind.bind, bind_in, create_flow_instance in Hb.
+        destruct (cfi_named ps ev [] []) as [args0 cc0].
+        destruct (start_flow (cfi_pos ps 0 ev args0) ev (cfi_ret rs cc0)); [|discriminate].
+        injection Hb as <- _. rewrite cfi_pos_poskey by auto.
+        replace ((0 <=? j) && (j <? 0 + List.length ps)) with true
+          by (symmetry; apply andb_true_iff; split; [apply Nat.leb_le | apply Nat.ltb_lt]; lia).
+        now rewrite Hv.
+      - rewrite (contig_none ev k j Hc Hge). apply aget_none_not_in. rewrite Hkeys.
+        rewrite in_app_iff. intros [H | H].
+        + apply in_map_iff in H. destruct H as [q [E Hq]]. revert E. apply plain_ne_pos_key. auto.
+        + apply in_map_iff in H. destruct H as [j' [E Hj']]. apply pos_key_inj in E. subst j'.
+          apply in_seq in Hj'. lia. }
+    assert (Hc' : pos_contig (restart_event_args R act a) k).
+    { intros j. unfold ahas. rewrite Hpos. apply (Hc j). }
+    destruct (bind_spec ps rs _ k Hwf Hc' Hk) as [a' [c' [Hb' [Hvals' _]]]].
+    exists a', c'. split; auto. intros i p Hnth.
+    assert (Hin : In p ps) by (eapply nth_error_In; eauto).
+    assert (E : ev_value (restart_event_args R act a) i p = ev_value ev i p).
+    { unfold Bind.ev_value at 1. rewrite Hpos.
+      rewrite restart_event_args_get by auto.
+      destruct (Hvals i p Hnth) as [_ Ha]. rewrite Ha.
+      unfold Bind.ev_value. destruct (aget (pos_key i) ev); reflexivity. }
+    rewrite <- E. now apply Hvals'.
+  Qed.
+
   (* ---- per-instance contexts ---- *)
   Notation step := (step expr eval).
   Notation run := (run expr eval).
